@@ -37,8 +37,27 @@ fn build(rng: &mut Rng, commit_at: Option<u64>) -> Option<(Run, Vec<String>, Vec
     run.step(&Op::Finalise { ts: ts0 + 1, hash: Hx::zero32(), tx_count: Idx::Auto });
     let nblocks = 7 + rng.below(5);
     let mut uid = 0;
+    // the receipts the indexer calls themselves returned (reference for the logs: independent of the block listings)
+    let mut returned: Vec<Value> = Vec::new();
     for b in 0..nblocks {
         let ts = ts0 + 10 + b;
+        if commit_at == Some(3) && b == 4 {
+            // a block under construction with two log-emitting transactions is discarded (clearCaches), rebuilt with ONE
+            // other transaction, and one of the dropped transactions comes back, unchanged, in the next block
+            let mk = |pk: usize, k: u64, id: &str| Op::Call { from_pkscript: PKSCRIPTS[pk].to_string(), to: To::ByAddress(Hx::from_hex(&contracts[0])),
+                data: Hx(cd::log(&[U256::from(1), U256::from(2)], U256::from(9000 + k))), enc: Enc::Hex, tail: tail(ts, id) };
+            run.step(&mk(0, 1, "clrA"));
+            run.step(&mk(1, 2, "clrB"));
+            run.step(&Op::Clear);
+            let o = run.step(&mk(2, 3, "clrC")).clone();
+            if o.status.is_ok() { returned.push(o.result.clone()); }
+            run.step(&Op::Finalise { ts, hash: Hx::zero32(), tx_count: Idx::Auto });
+            let o = run.step(&mk(1, 2, "clrB2")).clone();
+            if o.status.is_ok() { returned.push(o.result.clone()); }
+            run.step(&Op::Finalise { ts: ts + 1, hash: Hx::zero32(), tx_count: Idx::Auto });
+            continue;
+        }
+        let ts = if commit_at == Some(3) && b > 4 { ts + 1 } else { ts };
         let ntx = rng.below(4);
         for _ in 0..ntx {
             let c = rng.pick(&contracts).clone();
@@ -51,15 +70,18 @@ fn build(rng: &mut Rng, commit_at: Option<u64>) -> Option<(Run, Vec<String>, Vec
                 let other = contracts.iter().find(|x| **x != c).cloned().unwrap_or(c.clone());
                 (c.clone(), cd::call(Hx::from_hex(&other).to_address(), &cd::log(&topics, U256::from(uid))))
             } else { (c.clone(), cd::log(&topics, U256::from(uid))) };
-            run.step(&Op::Call { from_pkscript: PKSCRIPTS[rng.below(3) as usize].to_string(), to: To::ByAddress(Hx::from_hex(&to)), data: Hx(data), enc: Enc::Hex, tail: tail(ts, &format!("log{}", uid)) });
+            let o = run.step(&Op::Call { from_pkscript: PKSCRIPTS[rng.below(3) as usize].to_string(), to: To::ByAddress(Hx::from_hex(&to)), data: Hx(data), enc: Enc::Hex, tail: tail(ts, &format!("log{}", uid)) }).clone();
+            if o.status.is_ok() { returned.push(o.result.clone()); }
         }
         run.step(&Op::Finalise { ts, hash: Hx::zero32(), tx_count: Idx::Auto });
         if Some(b) == commit_at { run.step(&Op::Commit); }
     }
-    // collect the logs from the receipts, in chain order
-    let height = run.tracker.height()?;
+    // collect the logs from the receipts the calls returned, in chain order (the receipts of a discarded block
+    // under construction were never pushed)
+    let _height = run.tracker.height()?;
     let mut logs = Vec::new();
-    for b in 0..=height {
+    // (the two set-up blocks - genesis with the controller, the two deployments - are read back from the chain)
+    for b in 0..=1u64 {
         let blk = run.inst.rpc("eth_getBlockByNumber", json!([format!("0x{:x}", b), false])).ok()?;
         for h in blk["transactions"].as_array().cloned().unwrap_or_default() {
             let r = run.inst.rpc("eth_getTransactionReceipt", json!([h])).ok()?;
@@ -69,6 +91,13 @@ fn build(rng: &mut Rng, commit_at: Option<u64>) -> Option<(Run, Vec<String>, Vec
             }
         }
     }
+    for r in &returned {
+        for l in r["logs"].as_array().cloned().unwrap_or_default() {
+            logs.push(LogRec { block: hexn(&l["blockNumber"]), tx: hexn(&l["transactionIndex"]), idx: hexn(&l["logIndex"]), addr: l["address"].as_str().unwrap_or("").to_lowercase(),
+                topics: l["topics"].as_array().cloned().unwrap_or_default().iter().map(|t| t.as_str().unwrap_or("").to_string()).collect() });
+        }
+    }
+    logs.sort_by_key(|l| (l.block, l.idx));
     Some((run, contracts, logs))
 }
 
